@@ -147,7 +147,7 @@ def setup(ctx):
     ctx.see("tapped_pseudoinverse_definers", sorted(c.__name__ for c in owners))
 
 
-KINDS2 = tx.HOMOG + tx.EXTRA_HOMOG + ["ThinPlateSplines", "PiecewiseAffine", "PythonPWA", "tcoords", "PWA_trimesh_target", "PWA_mirrored_target"]
+KINDS2 = tx.HOMOG + tx.EXTRA_HOMOG + ["ThinPlateSplines", "PiecewiseAffine", "PythonPWA", "tcoords", "PWA_trimesh_target", "PWA_mirrored_target", "TPS_large_unit"]
 KINDS3 = tx.HOMOG + tx.EXTRA_HOMOG + ["tcoords3"]
 
 
@@ -178,6 +178,37 @@ def w_inverse(ctx, rng, i):
         t = cls(s, ms.PointCloud(tg.points @ refl.T + rng.uniform(-2, 2, 2)))
         inv = t.pseudoinverse()
         opt = cls.__name__
+    elif kind == "TPS_large_unit":
+        # landmarks in map metres / whole-slide pixel coordinates: coordinates of 1e4..1e5 with a non-rigid residual of a few units
+        from menpo.transform.rbf import R2LogR2RBF, R2LogRRBF
+        s, tg = tx.tps_pair(rng)
+        unit = 10.0 ** rng.uniform(3.5, 5.2)
+        sp = s.points * unit / tx.BOX
+        vk = int(rng.integers(0, 3))
+        if vk == 0:
+            tp = tg.points * unit / tx.BOX
+        elif vk == 1:
+            tp = sp @ (np.eye(2) + rng.uniform(-0.1, 0.1, (2, 2))).T + rng.uniform(-3, 3, 2) * unit + rng.normal(scale=10.0 ** rng.uniform(-3.5, 0.5), size=sp.shape)
+        else:
+            # two surveys of the same site: far from the origin, a few units apart, a small non-rigid residual
+            if rng.random() < 0.5:
+                sp = sp + rng.uniform(1, 5, 2) * unit
+            tp = sp + rng.uniform(-8, 8, 2) + rng.normal(scale=10.0 ** rng.uniform(-2.5, 0.0), size=sp.shape)
+        kcls = [None, R2LogR2RBF, R2LogRRBF][rng.integers(0, 3)]
+        t = mt.ThinPlateSplines(ms.PointCloud(sp), ms.PointCloud(tp), kernel=None if kcls is None else kcls(sp.copy()), min_singular_val=1e-4)
+        inv = t.pseudoinverse()
+        back = inv.apply(tp.copy())
+        e = tx.maxdiff(back, sp)
+        ctx.tap("large_unit_spline_inverse", "calls"); ctx.tap("large_unit_spline_inverse", "checked")
+        ctx.err("large_unit_warp_landmark_return_rel", e / unit)
+        # (seen on the unchanged tree: <= 5e-13 x unit)
+        if not (e <= 1e-9 * unit):
+            ctx.fail("inverse_warp_does_not_return_landmarks", cls="ThinPlateSplines", mech="large_unit", err=e, unit=unit)
+        fwd = t.apply(sp.copy())
+        ctx.err("large_unit_warp_landmark_forward_rel", tx.maxdiff(fwd, tp) / unit)
+        if not (tx.maxdiff(fwd, tp) <= 1e-9 * unit):
+            ctx.fail("inverse_warp_does_not_return_landmarks", cls="ThinPlateSplines", mech="large_unit:forward", err=tx.maxdiff(fwd, tp), unit=unit)
+        opt = "unit"
     elif kind == "PWA_trimesh_target":
         s, tg = tx.pwa_pair(rng)
         # the target handed over as a TriMesh that carries its own (different) triangulation
@@ -195,6 +226,16 @@ def w_inverse(ctx, rng, i):
     else:
         t, _ = tx.make(rng, kind, d)
         how = None
+        if isinstance(t, mt.Homogeneous) and rng.random() < 0.25 and not kind.startswith("Int"):
+            # the "try in place, fall back to a new object" idiom with a partner of a foreign class: refused, or - whatever
+            # is accepted - the object that results is the one that gets inverted
+            foreign, _ = tx.make(rng, ["Affine", "Translation", "Rotation", "NonUniformScale", "Similarity", "Homogeneous"][rng.integers(0, 6)], d)
+            try:
+                with taps.quiet():
+                    getattr(t, ["compose_before_inplace", "compose_after_inplace"][rng.integers(0, 2)])(foreign)
+                ctx.bump("inplace_composition_accepted")
+            except ValueError:
+                ctx.bump("inplace_composition_with_a_foreign_class_refused")
         if isinstance(t, mt.Homogeneous) and rng.random() < 0.35 and not kind.startswith("Int"):
             # the transform to invert is itself a product (a scale accumulated over several steps, a pose updated in place)
             with taps.quiet():
@@ -206,6 +247,17 @@ def w_inverse(ctx, rng, i):
             opt = "%s/%g" % (type(t.kernel).__name__, t.min_singular_val)
         if hasattr(t, "allow_mirror"):
             opt = "mirror=%s" % t.allow_mirror
+    if d == 3 and kind == "Affine" and rng.random() < 0.5:
+        # "wrap in the narrowest class that accepts the matrix": a matrix with a perspective entry anywhere in its bottom row is
+        # not affine - refused by Affine, or, if accepted, invertible like anything else that declares a true inverse
+        hp = np.array(t.h_matrix, dtype=float, copy=True)
+        hp[3, int(rng.integers(0, 3))] = float(rng.uniform(0.01, 0.05)) * rng.choice([-1.0, 1.0])
+        try:
+            tp_ = mt.Affine(hp)
+            ctx.bump("perspective_matrix_accepted_as_affine")
+            tp_.pseudoinverse()
+        except ValueError:
+            ctx.bump("perspective_matrix_refused_by_affine")
     # a work buffer refilled in place between two round trips through the warp and its inverse (same array object, new contents)
     from menpo.transform.piecewiseaffine.base import AbstractPWA as _PWA
     if isinstance(t, _PWA) and t.has_true_inverse and rng.random() < 0.5:
